@@ -1,12 +1,90 @@
-(* C04 — operations on one bucket never change another.  (theorems are added as they are
-   proved; see notes/agents/C04.md) *)
+(* C04 — operations addressed to one bucket never change any other bucket.
+   Property statements only.  Models: Model/{Mem,Sqlite,Peewee}Store.v (every method of the
+   AbstractStorage interface); proofs: Proofs/Store{Mem,Sqlite,Peewee}Proofs.v.
+   `X_view c b'` = metadata and events (with ids, storage order) of bucket b' as read back;
+   `target op` = the bucket the operation addresses; `fst (X_step c op)` = the state the call
+   leaves behind, whether it returned or raised.  No side condition on the operation or its
+   arguments: foreign ids, dead ids, missing buckets, any instants. *)
 From AwVerif Require Import Base.Prelude Model.StoreBase Model.MemStore Model.SqliteStore
-  Model.PeeweeStore.
+  Model.PeeweeStore Proofs.StoreMemProofs Proofs.StoreSqliteProofs Proofs.StorePeeweeProofs.
 
-(* Non-vacuity: a replace addressed to bucket 2 with the id of bucket 1's event. *)
-Example C04_nonvacuous_sqlite :
+(* --- the representation invariants hold initially and are preserved by every op --- *)
+Theorem C04_inv_init_mem : mem_Inv mem_init.
+Proof. exact mem_Inv_init. Qed.
+Print Assumptions C04_inv_init_mem.
+
+Theorem C04_inv_step_mem : forall c op, mem_Inv c -> mem_Inv (fst (mem_step c op)).
+Proof. exact mem_step_Inv. Qed.
+Print Assumptions C04_inv_step_mem.
+
+Theorem C04_inv_init_sqlite : sq_Inv sq_init.
+Proof. exact sq_Inv_init. Qed.
+Print Assumptions C04_inv_init_sqlite.
+
+Theorem C04_inv_step_sqlite : forall c op, sq_Inv c -> sq_Inv (fst (sq_step c op)).
+Proof. exact sq_step_Inv. Qed.
+Print Assumptions C04_inv_step_sqlite.
+
+Theorem C04_inv_init_peewee : pw_Inv pw_init.
+Proof. exact pw_Inv_init. Qed.
+Print Assumptions C04_inv_init_peewee.
+
+Theorem C04_inv_step_peewee : forall c op, pw_Inv c -> pw_Inv (fst (pw_step c op)).
+Proof. exact pw_step_Inv. Qed.
+Print Assumptions C04_inv_step_peewee.
+
+(* --- the frame theorems: every op, every argument --- *)
+Theorem C04_frame_mem : forall c op b',
+  mem_Inv c -> target op <> Some b' -> mem_view (fst (mem_step c op)) b' = mem_view c b'.
+Proof. exact mem_frame. Qed.
+Print Assumptions C04_frame_mem.
+
+Theorem C04_frame_sqlite : forall c op b',
+  sq_Inv c -> target op <> Some b' -> sq_view (fst (sq_step c op)) b' = sq_view c b'.
+Proof. exact sq_frame. Qed.
+Print Assumptions C04_frame_sqlite.
+
+Theorem C04_frame_peewee : forall c op b',
+  pw_Inv c -> target op <> Some b' -> pw_view (fst (pw_step c op)) b' = pw_view c b'.
+Proof. exact pw_frame. Qed.
+Print Assumptions C04_frame_peewee.
+
+(* --- the same without mentioning the invariant: after ANY history from the empty store --- *)
+Theorem C04_frame_mem_reachable : forall h op b',
+  target op <> Some b' ->
+  mem_view (fst (mem_step (mem_run mem_init h) op)) b' = mem_view (mem_run mem_init h) b'.
+Proof. exact mem_frame_reachable. Qed.
+Print Assumptions C04_frame_mem_reachable.
+
+Theorem C04_frame_sqlite_reachable : forall h op b',
+  target op <> Some b' ->
+  sq_view (fst (sq_step (sq_run sq_init h) op)) b' = sq_view (sq_run sq_init h) b'.
+Proof. exact sq_frame_reachable. Qed.
+Print Assumptions C04_frame_sqlite_reachable.
+
+Theorem C04_frame_peewee_reachable : forall h op b',
+  target op <> Some b' ->
+  pw_view (fst (pw_step (pw_run pw_init h) op)) b' = pw_view (pw_run pw_init h) b'.
+Proof. exact pw_frame_reachable. Qed.
+Print Assumptions C04_frame_peewee_reachable.
+
+(* Non-vacuity: two populated buckets; the id of bucket 1's event is passed to replace,
+   delete, insert_one and a bulk upsert addressed to bucket 2.  Bucket 1 reads back as
+   before on every model, while bucket 2 itself does change (the insert part of the bulk
+   call), and on peewee the foreign id is rejected with AttributeError. *)
+Example C04_nonvacuous :
   let m := mkMeta 1 1 1 0 None 0 in
-  let c := sq_run sq_init [CreateBucket 1 m; CreateBucket 2 m; InsertOne 1 (mkEvent None 0 1 1)] in
-  sq_view (fst (sq_step c (Replace 2 1 (mkEvent None 3 1 9)))) 1 = sq_view c 1 /\
-  sq_view c 1 = Some (m, [mkEvent (Some 1) 0 1 1]).
-Proof. vm_compute. split; reflexivity. Qed.
+  let h := [CreateBucket 1 m; CreateBucket 2 m; InsertOne 1 (mkEvent None 0 1 1); InsertOne 2 (mkEvent None 0 1 2)] in
+  let x := mkEvent None 3 1 9 in
+  let bulk i := InsertMany 2 [x; mkEvent (Some i) 3 1 9] in
+  (sq_view (sq_run sq_init h) 1 = Some (m, [mkEvent (Some 1) 0 1 1]) /\
+   sq_view (fst (sq_step (sq_run sq_init h) (Replace 2 1 x))) 1 = sq_view (sq_run sq_init h) 1 /\
+   sq_view (fst (sq_step (sq_run sq_init h) (bulk 1))) 1 = sq_view (sq_run sq_init h) 1 /\
+   sq_view (fst (sq_step (sq_run sq_init h) (bulk 1))) 2 <> sq_view (sq_run sq_init h) 2) /\
+  (pw_view (fst (pw_step (pw_run pw_init h) (InsertOne 2 (mkEvent (Some 1) 3 1 9)))) 1
+     = Some (m, [mkEvent (Some 1) 0 1 1]) /\
+   snd (pw_step (pw_run pw_init h) (InsertOne 2 (mkEvent (Some 1) 3 1 9))) = Err AttributeError) /\
+  (mem_view (fst (mem_step (mem_run mem_init h) (Delete 2 0))) 1
+     = Some (mkMeta 1 1 1 0 (Some 1) 0, [mkEvent (Some 0) 0 1 1]) /\
+   mem_view (fst (mem_step (mem_run mem_init h) (Delete 2 0))) 2 = Some (mkMeta 1 1 1 0 (Some 2) 0, [])).
+Proof. vm_compute. repeat split; try reflexivity. discriminate. Qed.
